@@ -46,6 +46,9 @@ type interp struct {
 	ignoreStore func(st *ssa.Store) bool
 	depth       int
 	steps       int
+	// floatConsts: float constants are modelled as fixed-point integers (x 1e6);
+	// only for rules that merely compare a bound random draw with a constant
+	floatConsts bool
 }
 
 type runResult struct {
@@ -97,6 +100,11 @@ func (it *interp) val(v ssa.Value, env map[ssa.Value]ival) ival {
 			return ival{kind: 'i', i: i}
 		case constant.Bool:
 			return ival{kind: 'b', b: constant.BoolVal(c.Value)}
+		case constant.Float:
+			if it.floatConsts {
+				f, _ := constant.Float64Val(c.Value)
+				return ival{kind: 'i', i: int64(f * 1e6)}
+			}
 		}
 		outsidef("constant %v", c)
 	case *ssa.Parameter, *ssa.FreeVar, *ssa.Global, *ssa.Function:
